@@ -297,8 +297,8 @@ def standard(prop, tier, seed, cases, classify, direct=None, known_match=None, e
 
 
 def expansion_oracle(run, chk, select=lambda cs: True):
-    """Lang/BroadcastProofs.v, programs_unroll_to_their_expansion (which contains Lang/LoopProofs.v): for every program p with
-    `pexpand env0 p = Some (q, evs)` the model's unroll() emits exactly q.  coqc evaluates the judgement on the parsed program
+    """Lang/GateDefProofs.v, programs_with_gate_definitions_unroll_to_their_expansion (which contains Lang/BroadcastProofs.v and
+    Lang/LoopProofs.v): for every program p with `gexpand env0 [] p = Some (q, evs)` the model's unroll() emits exactly q.  coqc evaluates the judgement on the parsed program
     of every selected case and compares q with the statements the IMPLEMENTATION emitted: inside the judgement they
     must be equal."""
     import os
@@ -318,9 +318,9 @@ def expansion_oracle(run, chk, select=lambda cs: True):
             outt = o.get("stmts_term") if o.get("unroll") == "ok" and o.get("stmts_term") else None
             terms.append("(%s, %s)" % (o["prog_term"], "Some %s" % outt if outt else "None"))
         with open(f, "w") as fh:
-            fh.write(langcorr.HEADER.replace("Unroll Corr", "Unroll FixProofs LoopProofs BroadcastProofs"))
+            fh.write(langcorr.HEADER.replace("Unroll Corr", "Unroll FixProofs LoopProofs BroadcastProofs GateDefProofs"))
             fh.write("Definition code (c : list stmt * option (list stmt)) : nat :=\n"
-                     "  match pexpand env0 (fst c), snd c with\n"
+                     "  match gexpand env0 [] (fst c), snd c with\n"
                      "  | None, _ => 0 | Some (q, _), Some out => if list_eqb stmt_eqb q out then 1 else 2 | Some _, None => 3 end.\n")
             fh.write("Eval vm_compute in (map code\n [%s]).\n" % ";\n  ".join(terms))
         procs.append((part, subprocess.Popen(["timeout", "600", "coqc", "-Q", common.COQ, "Verif", f], stdout=subprocess.PIPE, stderr=subprocess.PIPE, text=True)))
@@ -341,8 +341,8 @@ def expansion_oracle(run, chk, select=lambda cs: True):
                 bad += 1
                 o = run.outcomes[i]
                 chk.violation("expansion_theorem_%d" % bad, {"kind": "program", "source": run.cases[i]["src"], "family": run.cases[i]["family"],
-                              "what": "the program is inside the judgement of theorem programs_unroll_to_their_expansion (loops replaced by their body at each value, "
-                                      "whole-register operations by one operation per bit, in order) but the implementation " + ("emits different statements" if v == 2 else "rejects it: %s" % o.get("unroll")),
+                              "what": "the program is inside the judgement of theorem programs_with_gate_definitions_unroll_to_their_expansion (gate calls replaced by the instantiated body, "
+                                      "loops by their body at each value, whole-register operations by one operation per bit, in order) but the implementation " + ("emits different statements" if v == 2 else "rejects it: %s" % o.get("unroll")),
                               "implementation": {k2: o.get(k2) for k2 in ("validate", "unroll", "nq", "nc", "depth")}})
     return tally
 
